@@ -17,7 +17,7 @@ from . import rustc_engine as rc
 from .c09 import finish
 
 KINDS = ['split', 'flat', 'multi', 'nested', 'nested', 'payload', 'nested_relaxed_inner', 'unsized', 'unsized2', 'targs:generic', 'targs:concrete', 'targs:lifetime', 'targs:const', 'targs:bounded',
-         'targs:unsized_arg', 'targs:default_omitted', 'targs:unsized_where', 'flat', 'multi']
+         'targs:unsized_arg', 'targs:default_omitted', 'targs:unsized_where', 'targs:bounded_composite', 'flat', 'multi']
 
 
 def header_slots(b):
